@@ -960,6 +960,10 @@ func safeInv(inv NamedInvariant, ctx sdk.Context) (msg string, broken bool) {
 
 // Finish ends a run: close an open block, let the checker conclude.
 func (w *World) Finish() {
+	if w.DB != nil && w.DB.OpenIterators > 0 {
+		// code under test (or the SDK) left database iterators open: harmless on the simulated disk, counted
+		w.Probe("db_iterators_left_open_at_end_of_run")
+	}
 	if w.Viol == nil && len(w.Harness) == 0 && w.Checker != nil && !w.Aborted {
 		w.Checker.End(w)
 		w.Stats.NonTrivial = w.Checker.NonTrivial(w)
